@@ -37,7 +37,8 @@ THEOREMS = ["Mesa.Rng." + t for t in (
     "Mesa.Cells." + t for t in ("C01_cells_random_empty_determined",)] + [
     # shuffle / shuffle_do draw counts and determinism, generator handles of program-made sets, on the AgentSet / world models
     "Mesa.ASet.C01_agents_shuffle_draws", "Mesa.ASet.C01_agents_shuffle_function_of_members_and_script",
-    "Mesa.ASet.C01_agents_history_draws", "Mesa.Agents.C01_agents_shuffle_do_draws", "Mesa.Agents.C01_agents_sets_keep_their_generator"]
+    "Mesa.ASet.C01_agents_history_draws", "Mesa.Agents.C01_agents_shuffle_do_draws", "Mesa.Agents.C01_agents_only_shuffles_draw",
+    "Mesa.Agents.C01_agents_sets_keep_their_generator"]
 COUNTS = {"quick": 24, "thorough": 240}
 WATCHDOG = 400
 HEADER_LINES = 0
